@@ -57,7 +57,8 @@ META = {
                  "frames from a grammar of valid and near-valid frames (17 violation classes, close-frame variants, "
                  "compressed and fragmented messages, truncated tails). Every stream is judged by the independent "
                  "reference receiver and delivered under a seeded segmentation; non-trivial = stream non-empty and at "
-                 "least one delivery split the buffered stream; distinct = hash of the (action kind, emitted octets, state) sequence"),
+                 "least one delivery split the buffered stream; distinct = hash of the (action kind, emitted octets, state) sequence"
+                 ' Rounds 10-12: automatic pings of our own outstanding while the stream is judged; the header sweep is interleaved one to one with generated streams.'),
         "real": REAL_WS,
         "stub": STUB_WS + ["remote endpoint: scripted octet-level peer", "oracle: sim/ref_ws.judge_stream reference receiver"],
         "design_ref": "DESIGN.md section 4, C02",
@@ -71,7 +72,8 @@ META = {
                  "(valid, empty, every invalid class), peer data/ping/violation, peer FIN/RST, stall}, in raw-peer "
                  "(server and client role) and pair worlds, drawn failByDrop/echo/timeouts/auto-ping; non-trivial = "
                  "the endpoint entered CLOSING or got onClose; distinct = distinct hash of the sequence of "
-                 "(action kind, protocol states) pairs"),
+                 "(action kind, protocol states) pairs"
+                 ' Rounds 10-12: application operations from inside onClose(); a frame-API message begun while open and ended later.'),
         "real": REAL_WS,
         "stub": STUB_WS + ["remote endpoint in raw-peer worlds: scripted octet-level peer"],
         "design_ref": "DESIGN.md section 4, C05",
@@ -86,7 +88,8 @@ META = {
                  "deadline+delta, delta in {never,-2,-1.001,-1,-0.5,-0.001,0,+0.001,+1}; library timers and peer events "
                  "run in virtual-time order, ties decided by the scheduler; optional wall-clock jumps; then 1000 quiet "
                  "seconds after close; non-trivial = at least one deadline armed; distinct = hash of the "
-                 "(event kind, state, virtual time) sequence"),
+                 "(event kind, state, virtual time) sequence"
+                 ' Round 11: empty data frames as traffic.'),
         "real": REAL_WS,
         "stub": STUB_WS + ["remote endpoint: scripted octet-level peer on the virtual time line"],
         "design_ref": "DESIGN.md section 4, C17",
@@ -100,7 +103,8 @@ META = {
                  "separately from its payload - header-only delivery - under a seeded segmentation), send (application "
                  "sends at M-1/M/M+1 with and without compression, message and prepared API) and inflate (deflate with a "
                  "decompression limit Z, messages at Z-1/Z/Z+1/10Z followed by further messages); non-trivial = a peer "
-                 "script or a refused send exists; distinct = hash of the (action kind, state) sequence"),
+                 "script or a refused send exists; distinct = hash of the (action kind, state) sequence"
+                 ' Rounds 10-11: limits and failByDrop set on the connection instead of the factory; arbitrary decompression limits, overshoots of 1-300 octets, one-octet runs.'),
         "real": REAL_WS,
         "stub": STUB_WS + ["remote endpoint: scripted octet-level peer"],
         "design_ref": "DESIGN.md section 4, C16",
@@ -115,7 +119,8 @@ META = {
                  "mutations of known verdict, or arbitrary octets; server options: versions, origin allow-list, null "
                  "origin, connection limit, external port, status page) and client (scripted server: 24 response "
                  "mutations); all under a seeded segmentation; non-trivial = at least one delivery split the buffered "
-                 "stream; distinct = hash of the (action kind, mutation, state) sequence"),
+                 "stream; distinct = hash of the (action kind, mutation, state) sequence"
+                 ' Rounds 10-11: maxConnections changed or lifted while connections exist (a connection is judged by the limit in force when it was accepted); a server application naming a subprotocol the client never offered.'),
         "real": REAL_WS,
         "stub": STUB_WS + ["remote endpoint in server/client modes: scripted HTTP peer with by-construction verdicts"],
         "design_ref": "DESIGN.md section 4, C07",
@@ -132,7 +137,8 @@ META = {
                  "segmentation; 1 of 8: hostile 101 responses (unknown/repeated/duplicated/ill-parameterised/declined "
                  "extension); 1 of 8: compressed control frames and RSV1 continuation frames among other traffic with "
                  "compression on; non-trivial = negotiated and >= 2 messages delivered (pair) / split delivery (others); "
-                 "distinct = hash of (configuration, action kind, state) sequence"),
+                 "distinct = hash of (configuration, action kind, state) sequence"
+                 ' Round 11: an earlier connection of the process with the default deflate parameters before the judged one.'),
         "real": REAL_WS,
         "stub": STUB_WS + ["wire monitor decompressors: zlib / bz2 / brotli used directly"],
         "design_ref": "DESIGN.md section 4, C12",
@@ -147,7 +153,8 @@ META = {
                  "unknown id, wrong type, wrong error type, PUBLISHED for unacknowledged publish, EVENT for unknown id, "
                  "handshake message after join), EVENT/INVOCATION pushes, transport loss (cut mode); id generator "
                  "started near 2^53 in some runs; non-trivial = at least 2 requests answered; distinct = hash of "
-                 "(action kind, session state) sequence"),
+                 "(action kind, session state) sequence"
+                 " Rounds 10-12: an application exception class define()d for an error URI; a 'join' listener issuing the first request; register(obj) with decorated endpoints and mixed options."),
         "real": REAL_WAMP,
         "stub": STUB_WAMP,
         "design_ref": "DESIGN.md section 4, C04",
@@ -160,7 +167,8 @@ META = {
                  "raising, self-/next-/previous-unsubscribing handlers, details_arg, decorated objects), unsubscribe, "
                  "router SUBSCRIBED (shared id per topic) / ERROR / UNSUBSCRIBED in any order, EVENTs for live ids, for "
                  "ids in the unsubscribe race window and for ids never held; non-trivial = at least one event invoked "
-                 "a handler; distinct = hash of (action kind, session state) sequence"),
+                 "a handler; distinct = hash of (action kind, session state) sequence"
+                 ' Rounds 10-11: the application acts on its subscribe() result at once (handler swap, immediate unsubscribe); an UNSUBSCRIBE the router refuses.'),
         "real": REAL_WAMP,
         "stub": STUB_WAMP,
         "design_ref": "DESIGN.md section 4, C11",
@@ -175,7 +183,8 @@ META = {
                  "leave()/disconnect()/call/publish/subscribe/register at any point, every user callback and listener "
                  "drawn to return / raise / stay pending (resolved or failed later by the scheduler), close()/abort() "
                  "completing later, transport loss at any step (cut mode), API calls after the end; non-trivial = "
-                 "joined, aborted or ended; distinct = hash of (action kind, session state) sequence"),
+                 "joined, aborted or ended; distinct = hash of (action kind, session state) sequence"
+                 " Rounds 11-12: mode 'rejoin' (every sixth run): two or three sessions one after the other on one transport, each judged on its own; messages arriving after the session has ended."),
         "real": REAL_WAMP,
         "stub": STUB_WAMP,
         "design_ref": "DESIGN.md section 4, C06",
@@ -211,7 +220,8 @@ META = {
                  "mapped / unmapped exception, error with un-serializable args, pending result resolved / failed / never, "
                  "progress then value), several outstanding at once, INTERRUPTs at any point, seeded segmentation of "
                  "both byte streams; non-trivial = at least one invocation; distinct = hash of (action kind, transport "
-                 "state) sequence"),
+                 "state) sequence"
+                 ' Round 10: permessage-deflate on the WebSocket transports with incompressible oversized results; a transport that goes down without an injected fault is a violation.'),
         "real": REAL_STACK + ["autobahn.wamp.protocol ApplicationSession (callee side)"],
         "stub": ["TCP link, reactor/selector, randomness: as for the WebSocket worlds", "dealer: scripted session on the real server transport"],
         "design_ref": "DESIGN.md section 4, C10",
@@ -228,7 +238,8 @@ META = {
                  "the caller), drawn serializers per side, traceback forwarding on/off, 2-7 calls whose endpoint raises "
                  "one of 9 exception shapes with 4 argument lists; the scripted dealer routes CALL->INVOCATION and "
                  "forwards the ERRORs late and in any order; non-trivial = at least one error forwarded; distinct = hash "
-                 "of (action kind, per-side state) sequence"),
+                 "of (action kind, per-side state) sequence"
+                 ' Rounds 10-11: definitions the library refuses; traceback forwarding switched while the session is in use.'),
         "real": REAL_WAMP,
         "stub": STUB_WAMP,
         "design_ref": "DESIGN.md section 4, C18",
@@ -244,7 +255,8 @@ META = {
                  "URIs, endpoints returning or raising, the router forwarding in any order and tampering per direction "
                  "(flip an octet, substitute a genuine ciphertext of another URI, re-label the envelope URI); "
                  "nacl nonce generation seeded; non-trivial = at least one operation; distinct = hash of (action kind, "
-                 "per-side state) sequence"),
+                 "per-side state) sequence"
+                 ' Rounds 10-12: two handlers per subscription and handlers modifying nested payloads in place; re-keying with a malformed key; tampered progressive results.'),
         "real": REAL_WAMP + ["autobahn.wamp.cryptobox KeyRing/Key on PyNaCl"],
         "stub": STUB_WAMP,
         "design_ref": "DESIGN.md section 4, C20",
@@ -260,7 +272,8 @@ META = {
                  "then GOODBYE normal / system_shutdown, joined and staying) played by the real server stack with a "
                  "scripted router over the simulated link; stop() at any point in 30% of the runs; retry sleeps run on "
                  "virtual time (up to 4000 s per run); non-trivial = at least 2 connection attempts; distinct = hash of "
-                 "(action kind, attempt outcomes, component state) sequence"),
+                 "(action kind, attempt outcomes, component state) sequence"
+                 ' Round 11: stop() on the idle component before start().'),
         "real": REAL_STACK + ["autobahn.wamp.component + autobahn.{twisted,asyncio}.component (retry loop, per-connection futures)",
                               "autobahn.wamp.protocol new-API Session"],
         "stub": ["connection establishment: SimEndpoint (IStreamClientEndpoint) / SimLoop.create_connection", "router: scripted session on the real server transports",
